@@ -129,6 +129,9 @@ def driver_series(name, n, extra):
     labs = labels(extra)
     out = {}
     factor = 1.0
+    whole = False
+    if name.endswith("#int"):  # whole numbers (the caller stores them in an integer array)
+        name, whole = name[:-4], True
     if "@" in name:  # exact power-of-two rescaling: magnitudes far from 1
         name, mag = name.split("@")
         factor = {"tiny": 2.0 ** -40, "huge": 2.0 ** 30}[mag]
@@ -155,7 +158,7 @@ def driver_series(name, n, extra):
                 v = 0.0 if t == 1 else 4.0 + t + li
             else:
                 raise ValueError(name)
-            out[(t, lab)] = v * factor
+            out[(t, lab)] = float(round(v)) if whole else v * factor
     return out
 
 
